@@ -25,15 +25,15 @@ type c24res struct {
 }
 
 type c24world struct {
-	r        *simkit.Run
-	rp       *util.ResourcePool
-	maxCap   int
-	nextID   int
-	created  map[int]*c24res
-	holders  map[string]*c24res // task -> held resource
-	inOp     map[string]string  // task -> operation in progress
-	closeReq bool               // Close has been called (maybe still waiting)
-	closed   bool               // Close returned
+	r              *simkit.Run
+	rp             *util.ResourcePool
+	maxCap         int
+	nextID         int
+	created        map[int]*c24res
+	holders        map[string]*c24res // task -> held resource
+	inOp           map[string]string  // task -> operation in progress
+	closeReq       bool               // Close has been called (maybe still waiting)
+	closed         bool               // Close returned
 	getDuringClose bool
 }
 
